@@ -10,6 +10,8 @@ static mut REMOVED_OUTSIDE_TMP: bool = false;
 static mut COPIED_TO_OUTSIDE_TMP: bool = false;
 static mut COPY_SOURCE_NOT_INPUT: bool = false;
 static mut REMOVED_DIR_NOT_TMP: bool = false;
+static mut LINKED_OR_RENAMED: bool = false; // hard_link / symlink / rename was called (aliases or moves a scanned file)
+static mut WROTE_OUTSIDE_CONTRACT: bool = false; // File::create / fs::write / OpenOptions::open was called
 static mut REMOVES: u32 = 0;
 static mut COPIES: u32 = 0;
 
@@ -58,6 +60,55 @@ fn stub_remove_dir_all<P: AsRef<std::path::Path>>(path: P) -> io::Result<()> {
     Ok(())
 }
 
+fn stub_hard_link<P: AsRef<std::path::Path>, Q: AsRef<std::path::Path>>(_o: P, _l: Q) -> io::Result<()> {
+    unsafe { LINKED_OR_RENAMED = true };
+    Err(io::Error::from(io::ErrorKind::Other))
+}
+
+fn stub_symlink<P: AsRef<std::path::Path>, Q: AsRef<std::path::Path>>(_o: P, _l: Q) -> io::Result<()> {
+    unsafe { LINKED_OR_RENAMED = true };
+    Err(io::Error::from(io::ErrorKind::Other))
+}
+
+fn stub_rename<P: AsRef<std::path::Path>, Q: AsRef<std::path::Path>>(_o: P, _l: Q) -> io::Result<()> {
+    unsafe { LINKED_OR_RENAMED = true };
+    Err(io::Error::from(io::ErrorKind::Other))
+}
+
+fn stub_file_create<P: AsRef<std::path::Path>>(_p: P) -> io::Result<File> {
+    unsafe { WROTE_OUTSIDE_CONTRACT = true };
+    Err(io::Error::from(io::ErrorKind::Other))
+}
+
+fn stub_fs_write<P: AsRef<std::path::Path>, C: AsRef<[u8]>>(_p: P, _c: C) -> io::Result<()> {
+    unsafe { WROTE_OUTSIDE_CONTRACT = true };
+    Err(io::Error::from(io::ErrorKind::Other))
+}
+
+/// Opening the input for reading (stdin redirection) is allowed.
+fn stub_file_open<P: AsRef<std::path::Path>>(_p: P) -> io::Result<File> {
+    use std::os::unix::io::FromRawFd;
+    if kani::any() {
+        Ok(unsafe { File::from_raw_fd(3) })
+    } else {
+        Err(io::Error::from(io::ErrorKind::Other))
+    }
+}
+
+static mut PIPE_OUTSIDE_TMP: bool = false;
+
+fn stub_create_named_pipe(path: &std::path::Path) -> io::Result<()> {
+    if !inside_tmp(path) {
+        unsafe { PIPE_OUTSIDE_TMP = true };
+    }
+    Ok(())
+}
+
+fn stub_open_options_open<P: AsRef<std::path::Path>>(_o: &OpenOptions, _p: P) -> io::Result<File> {
+    unsafe { WROTE_OUTSIDE_CONTRACT = true };
+    Err(io::Error::from(io::ErrorKind::Other))
+}
+
 /// Assumed contract of `parse_command` (nom + regex, not compilable by Kani): it calls the substitution closure for
 /// any subset of the variables `$IN`, `$OUT` and some other variable, and returns the substituted arguments.
 fn stub_parse_command<F>(_command: &str, substitute: F) -> Vec<OsString>
@@ -65,6 +116,7 @@ where
     F: Fn(&str) -> OsString,
 {
     let mut v = Vec::new();
+    v.push(OsString::from("prog"));
     if kani::any() {
         v.push(substitute("X"));
     }
@@ -92,6 +144,14 @@ fn stub_output(_t: &Transform, _input: &Path) -> PathBuf {
 #[kani::stub(std::fs::remove_file, stub_remove_file)]
 #[kani::stub(std::fs::copy, stub_copy)]
 #[kani::stub(std::fs::remove_dir_all, stub_remove_dir_all)]
+#[kani::stub(std::fs::hard_link, stub_hard_link)]
+#[kani::stub(std::os::unix::fs::symlink, stub_symlink)]
+#[kani::stub(std::fs::rename, stub_rename)]
+#[kani::stub(std::fs::File::create, stub_file_create)]
+#[kani::stub(std::fs::write, stub_fs_write)]
+#[kani::stub(std::fs::OpenOptions::open, stub_open_options_open)]
+#[kani::stub(std::fs::File::open, stub_file_open)]
+#[kani::stub(create_named_pipe, stub_create_named_pipe)]
 #[kani::stub(parse_command, stub_parse_command)]
 #[kani::stub(Transform::random_tmp_file_name, stub_random_tmp_file_name)]
 #[kani::stub(Transform::output, stub_output)]
@@ -106,6 +166,8 @@ fn c07_transform_frame() {
     };
     let input = p1(b"f");
     let (args, i, o) = t.make_args(&input);
+    // (build_command, which calls this and assembles the std::process::Command, is out of reach: CBMC runs out of memory
+    //  on Command::new / its drop glue; a change of this method's signature therefore ends as "undecided")
     let prepared = i.prepare_input_file();
     std::mem::forget(prepared);
     drop(i);
@@ -118,6 +180,9 @@ fn c07_transform_frame() {
         assert!(!COPY_SOURCE_NOT_INPUT, "C07.transform_frame.copy_reads_the_input_file");
         assert!(!REMOVED_OUTSIDE_TMP, "C07.transform_frame.remove_inside_tmp");
         assert!(!REMOVED_DIR_NOT_TMP, "C07.transform_frame.only_tmp_dir_removed_recursively");
+        assert!(!LINKED_OR_RENAMED, "C07.transform_frame.scanned_files_are_copied_never_linked_or_renamed");
+        assert!(!WROTE_OUTSIDE_CONTRACT, "C07.transform_frame.no_file_opened_for_writing");
+        assert!(!PIPE_OUTSIDE_TMP, "C07.transform_frame.named_pipe_inside_tmp");
         kani::cover!(COPIES > 0, "cover.copied");
         kani::cover!(REMOVES > 0, "cover.removed");
         kani::cover!(in_place && !copy && REMOVES > 0, "cover.in_place_no_copy");
